@@ -39,6 +39,14 @@ TIERS = {
                          run_timeout=120, determinism=256, shrink_budget=240,
                          shrink_timeout=900),
     },
+    'C16': {
+        'quick': dict(runs=1600, workers=16, batch_timeout=900,
+                      run_timeout=120, determinism=32, shrink_budget=90,
+                      shrink_timeout=400),
+        'thorough': dict(runs=100000, workers=16, batch_timeout=10800,
+                         run_timeout=120, determinism=256, shrink_budget=240,
+                         shrink_timeout=900),
+    },
 }
 
 COMMON_ASSUMPTIONS = [
@@ -229,6 +237,39 @@ META = {
             'k-table interpolation mode is checked for loads after an explicit '
             'KTableCache.clear_cache()',
             'NEMESIS k-tables and RADIS are not in the statement',
+        ],
+    },
+    'C16': {
+        'rule': 'one run = one history of store operations in phases (open w, '
+                'nested groups, store_dictionary of generated nested result '
+                'dictionaries, spectrum dictionaries from a real binner and '
+                'model at every output size, model.write, close, re-open in '
+                'append mode) executed on R simulated ranks, then read back '
+                'with plain h5py and compared with a nested-dict reference; '
+                'reload runs rebuild the model from the file and compare '
+                'component types, constructor values and spectrum; all runs '
+                'non-trivial; distinct = distinct (part, set of (leaf type, '
+                'depth), number of phases, R, spectrum ops, contributions, '
+                'model family)',
+        'probes': ['append_phase', 'reload_run'],
+        'real': ['HDF5Output / HDF5OutputGroup', 'Output.store_dictionary, '
+                 'recursively_save_dict_contents_to_output, store_thing',
+                 'Binner/FluxBinner/SimpleBinner/NativeBinner '
+                 'generate_spectrum_output', 'every component write() of the '
+                 'generated models', 'taurex.util.hdf5.taurex_hdf5_to_model',
+                 'h5py on a real file in a scratch directory'],
+        'stub': ['mpi4py -> SimWorld (only get_rank matters here)',
+                 'in-memory opacity tables'],
+        'assumptions': COMMON_ASSUMPTIONS + [
+            'keys are compared after str(); strings are ASCII; string-list '
+            'elements and strings may exceed 64 characters (reported under a '
+            'separate key)',
+            'components limited to those that run on Python 3.12 / NumPy 2: '
+            'Isothermal, Guillot2010, ConstantGas, SimplePressureProfile, '
+            'Planet, BlackbodyStar, Absorption, CIA, Rayleigh, SimpleClouds, '
+            'FlatMie, LeeMie; transmission, emission, direct image',
+            'crash consistency of the HDF5 file is not promised by the '
+            'property and is not injected',
         ],
     },
 }
